@@ -56,6 +56,12 @@ def hookOf (t : Thread) : Option String :=
   | .swAI _ _ | .swAI2 _ _ => some "p:AI:0"
   | _ => none
 
+/-- the harness' numbering of the error classes (c13ErrClasses) -/
+def clsOf : Nat → ErrClass
+  | 1 => .notFound | 2 => .conflict | 3 => .alreadyExists | 4 => .invalid | 5 => .forbidden
+  | 6 => .noKindMatch | 7 => .transportTemporary | 8 => .deadlineExceeded | 9 => .cancelled
+  | 10 => .tooManyRequests | _ => .generic
+
 def isDone (t : Thread) : Bool := match t.pc with | .done _ => true | _ => false
 
 def statusVec (s : Sys) (started : List Bool) : List String :=
@@ -70,8 +76,13 @@ def perms : List Wid → List (List Wid)
   | [] => [[]]
   | x :: xs => (perms xs).flatMap (insertAll x)
 
+/-- the order in which the real collector listed the watches it asked StopWatches to stop
+(recorded by the harness; Go map order). The model accepts it only if it is a permutation of
+its own stop set (`next`, pc `gcCRrel`), so the hint selects a model run, it cannot create one. -/
+def askedOf (j : Json) : List Wid := (arr j "asked").map widOf
+
 /-- successors by one internal step (not an external call) of a started thread -/
-def internalSuccs (cfg : Cfg) (s : Sys) (started : List Bool) : List Sys :=
+def internalSuccs (cfg : Cfg) (hints : List (List Wid)) (s : Sys) (started : List Bool) : List Sys :=
   ((s.threads.zip started).zipIdx).flatMap fun ((t, st), i) =>
     if !st || isDone t || (hookOf t).isSome then [] else
     match t.pc with
@@ -79,17 +90,22 @@ def internalSuccs (cfg : Cfg) (s : Sys) (started : List Bool) : List Sys :=
       match srcsOf s cid with
       | [] => (step cfg s i {}).toList
       | srcs => srcs.filterMap fun (w, _) => step cfg s i { pick := w }
-    | .gcCRrel _ l _ refs => (perms (gcStop cfg l refs).eraseDups).filterMap fun p => step cfg s i { perm := p }
+    | .gcCRrel _ l _ refs =>
+      let stop := (gcStop cfg l refs).eraseDups
+      let cands := match hints.getD i [] with
+        | [] => if stop.length ≤ 5 then perms stop else [stop]
+        | hint => [hint]
+      cands.filterMap fun p => step cfg s i { perm := p }
     | _ => (step cfg s i {}).toList
 
-partial def closure (cfg : Cfg) (started : List Bool) (todo : List Sys) (seen : List Sys) (acc : List Sys) : List Sys :=
+partial def closure (cfg : Cfg) (hints : List (List Wid)) (started : List Bool) (todo : List Sys) (seen : List Sys) (acc : List Sys) : List Sys :=
   match todo with
   | [] => acc
   | s :: rest =>
-    if seen.contains s then closure cfg started rest seen acc else
-    match internalSuccs cfg s started with
-    | [] => closure cfg started rest (s :: seen) (s :: acc)
-    | succs => closure cfg started (succs ++ rest) (s :: seen) acc
+    if seen.contains s then closure cfg hints started rest seen acc else
+    match internalSuccs cfg hints s started with
+    | [] => closure cfg hints started rest (s :: seen) (s :: acc)
+    | succs => closure cfg hints started (succs ++ rest) (s :: seen) acc
 
 def resStr (op : Op) : Res → String
   | .ok => "ok" | .err => "err" | .notRunning => match op with | .gc _ _ => "err" | _ => "notRunning"
@@ -145,7 +161,7 @@ structure Rep where
   bad : Option String := none     -- first invariant violation seen
   lost : Option Nat := none       -- event index at which no model run matched
 
-def replay (cfg : Cfg) (events : List Json) (r0 : Rep) : Rep := Id.run do
+def replay (cfg : Cfg) (hints : List (List Wid)) (events : List Json) (r0 : Rep) : Rep := Id.run do
   let mut r := r0
   let mut k := 0
   for ev in events do
@@ -159,9 +175,9 @@ def replay (cfg : Cfg) (events : List Json) (r0 : Rep) : Rep := Id.run do
       if !wasStarted then r.cands
       else r.cands.filterMap fun s =>
         match s.threads[t]? with
-        | some th => if (hookOf th).isSome then step cfg s t { fault := f } else none
+        | some th => if (hookOf th).isSome then step cfg s t { fault := f, cls := clsOf (nat ev "fc") } else none
         | none => none
-    let closed := closure cfg started fired [] []
+    let closed := closure cfg hints started fired [] []
     let keep := closed.filter fun s => statusVec s started == st
     let bad := match r.bad with
       | some b => some b
@@ -175,7 +191,7 @@ def handler : Handler := fun scn =>
   let names := nat scn "names"
   let hint := obj scn "final"
   let dead := bool hint "deadlock"
-  let r := replay Cfg.fixed (arr scn "events") { cands := [init ops], started := ops.map fun _ => false }
+  let r := replay Cfg.fixed ((arr scn "threads").map askedOf) (arr scn "events") { cands := [init ops], started := ops.map fun _ => false }
   match r.lost with
   | some k => .ok (Json.mkObj [("noModelRun", Json.num (Lean.JsonNumber.fromNat k))], true, "")
   | none =>
